@@ -238,3 +238,58 @@ func VerifH14d() {
 	w.checkReads("H14d.reads")
 	nd.Reach("H14d.end")
 }
+
+// VerifH13d: two calls finishing the same transaction at the same time (a watchdog's Rollback
+// racing the worker's Commit, a retried Commit). Exactly one of them finishes it: a Commit that
+// returns nil has published the writes, a Commit that lost reports ErrTxNotFound and nothing is
+// published; the handle is finished afterwards.
+func VerifH13d() {
+	P := 1
+	if nd.Tier() == 1 {
+		P = 2
+	}
+	nd.Bound("H13d.preemption_bound", P)
+	concreteCounter = true
+	w := newWorld(stdConfig(), []string{"a"})
+	old := w.freshVal()
+	nd.Assert(w.doSet(0, "a", old, 0) == nil, "H13d.pre")
+	t := w.begin(allLevels[nd.Choice("level", 4)])
+	nv := w.freshVal()
+	nd.Assert(w.doSet(t, "a", nv, 0) == nil, "H13d.tx-write")
+	h := w.txs[t].h
+	otherCommits := nd.Choice("other-call-is-a-commit", 2) == 1
+	var e1, e2 error
+	nd.SpawnRunsFirst(P == 1)
+	nd.SetPreemptionBound(P)
+	go func() {
+		if otherCommits {
+			e2 = h.Commit(ctx)
+		} else {
+			e2 = h.Rollback(ctx)
+		}
+	}()
+	e1 = h.Commit(ctx)
+	nd.JoinAll()
+	nd.SetPreemptionBound(0)
+	committed := e1 == nil || (otherCommits && e2 == nil)
+	if otherCommits {
+		nd.Assert(!(e1 == nil && e2 == nil), "H13d.both-commits-of-one-transaction-succeed")
+	} else {
+		nd.Assert(e2 == nil, "H13d.rollback-is-tolerant")
+	}
+	if e1 != nil {
+		nd.Assert(errors.Is(e1, fs_db.ErrTxNotFound), "H13d.losing-commit-reports-ErrTxNotFound")
+	}
+	nd.Assume(!nd.EqBytes(old, nv))
+	got, err := w.d.Get(ctx, "a")
+	nd.Assert(err == nil, "H13d.read")
+	if err == nil {
+		if committed {
+			nd.Assert(nd.EqBytes(got, nv), "H13d.commit-reported-success-but-the-writes-are-gone")
+		} else {
+			nd.Assert(nd.EqBytes(got, old), "H13d.nothing-committed-but-the-writes-are-visible")
+		}
+	}
+	nd.Assert(errors.Is(h.Commit(ctx), fs_db.ErrTxNotFound), "H13d.finished-afterwards")
+	nd.Reach("H13d.end")
+}
